@@ -332,8 +332,10 @@ theorem nrel_mono {n m : Nat} (hnm : n ≤ m) {ty : PyTy} {j j' : Json} (h : nre
 def Unstr (o : Option PyTy) (v : PyVal) (j' : Json) : Prop := ∃ m, unstruct E m o v = .ok j'
 def NRel (ty : PyTy) (j j' : Json) : Prop := ∃ k, nrel E k ty j j' = true
 
-/-- unstructuring `v` with handler `o` succeeds and the output is related to `j` at `ty` -/
-def OutAt (o : Option PyTy) (ty : PyTy) (v : PyVal) (j : Json) : Prop := ∃ j', Unstr E o v j' ∧ NRel E ty j j'
+/-- unstructuring `v` with handler `o` succeeds, the output is related to `j` at `ty`, and `v` is
+    a typed reading of the output too (so the output is again a valid value: T1 applies to it) -/
+def OutAt (o : Option PyTy) (ty : PyTy) (v : PyVal) (j : Json) : Prop :=
+  ∃ j', Unstr E o v j' ∧ NRel E ty j j' ∧ Rep E bad ty v j'
 
 theorem NRel.refl_of_scalar {ty : PyTy} (j : Json) (h : ∀ n, nrel E (n + 1) ty j j = Json.beq j j) : NRel E ty j j :=
   ⟨1, by rw [h 0]; exact Json.beq_refl j⟩
